@@ -12,6 +12,9 @@ package skipmap
 // 6 an update (Store / LoadOrStore / LoadOrStoreLazy / AddB) has found an existing node and has not yet
 //
 //	looked at its flags / value.
+//
+// 7 an adder has set fullyLinked and released its locks and has not yet incremented the length counter,
+// 8 a remover has unlinked its victim and released its locks and has not yet decremented the length counter.
 var VerifYieldHook func(point int)
 
 func verifYield(k int) {
